@@ -564,6 +564,43 @@ def indexdim(res, uf):
     want_adr = {d: a for a, d in adr_dim.items()}
     sizes = set(xmacro.sizes())
     nsites = 0
+    _pv = {}
+
+    def _prov_of(fname):
+        if fname not in _pv:
+            f_ = uf.funcs[fname]
+            _pv[fname] = r_misc.Prov(f_, adr_dim, count_arrays, sizes, r_misc.local_defs(f_), OFFSET_STRUCTS)
+        return _pv[fname]
+
+    def _resolve_params(p, fname, depth=0):
+        """a parameter of a static helper has the provenance of the arguments its callers (same TU) pass for it"""
+        if not any(t.startswith("param:") for t in p):
+            return p
+        f_ = uf.funcs.get(fname)
+        if f_ is None or f_.get("storageClass") != "static" or depth > 3:
+            return p
+        pnames = [q.get("n") for q in cir.params(f_)]
+        out = {t for t in p if not t.startswith("param:")}
+        for t in p:
+            if not t.startswith("param:"):
+                continue
+            pn = t[6:]
+            if pn not in pnames:
+                out.add(t)
+                continue
+            i_ = pnames.index(pn)
+            found = False
+            for cname, cfn in uf.funcs.items():
+                if cname == fname:
+                    continue
+                for c in cir.calls(cfn, fname):
+                    a_ = cir.args(c)
+                    if i_ < len(a_):
+                        found = True
+                        out |= _resolve_params(_prov_of(cname).prov(a_[i_]), cname, depth + 1)
+            if not found:
+                out.add(t)
+        return out
     for name, fn in sorted(uf.funcs.items()):
         if (fn.get("file") or uf.tu) != uf.tu:
             continue
@@ -643,6 +680,7 @@ def indexdim(res, uf):
             p = pv.prov(idx)
             if off is not None:
                 p = p | pv.prov(off)
+            p = _resolve_params(p, name)
             if d in io:
                 good = bool(p) and p <= {d}
                 if not p and off is None and cir.strip(idx).get("k") == "IntegerLiteral":
